@@ -9,10 +9,11 @@ def main():
     checks, na = [], []
     engines = []
     extra_na = json.load(open(os.path.join(HERE, "vlib", "not_applicable.json"))) if os.path.exists(os.path.join(HERE, "vlib", "not_applicable.json")) else {}
+    claimed = set(json.load(open(os.path.join(HERE, "vlib", "claimed.json"))))
     for p in props:
         pid = p["id"]
         mp = os.path.join(HERE, "vlib", "props", pid.lower() + ".py")
-        if not os.path.exists(mp) or pid in extra_na:
+        if not os.path.exists(mp) or pid in extra_na or pid not in claimed:
             na.append(dict(property_id=pid, reason=extra_na.get(pid, "no Lean model with a checked tie to the code has been built for this property yet (see DESIGN.md section 5." + pid + " for the planned model); nothing is claimed")))
             continue
         mod = importlib.import_module("vlib.props." + pid.lower())
